@@ -391,6 +391,16 @@ pub mod prelude {
     pub use std::str::FromStr;
 }
 
+/// Verification hooks, only compiled with `--cfg exmex_verif`.
+#[cfg(exmex_verif)]
+pub mod verif_hooks {
+    pub use crate::expression::eval_binary;
+    pub use crate::expression::VerifNumberTracker as NumberTracker;
+    pub use crate::operators::OperateBinary;
+    #[cfg(feature = "partial")]
+    pub use crate::expression::partial::verif_partial_rule_names;
+}
+
 /// Parses a string, evaluates the expression, and returns the resulting number.
 ///
 /// # Errrors
